@@ -28,7 +28,9 @@ import sys
 
 ROOT = os.path.dirname(os.path.dirname(os.path.abspath(__file__)))
 sys.path.insert(0, os.path.join(ROOT, "tools"))
+sys.path.insert(0, os.path.join(ROOT, "props"))
 import gen_structs  # noqa: E402
+import c20_lifetimes  # noqa: E402
 
 PROBES = os.path.join(ROOT, "probes")
 
@@ -179,6 +181,8 @@ def locate_rlib(ctx):
     env = dict(ctx["env"])
     env["RUSTFLAGS"] = env.get("RUSTFLAGS", "") + " -Awarnings"
     cmd = ["cargo", "build", "--offline", "--quiet", "--message-format=json", "--target-dir", ctx["harness_target_dir"]]
+    if os.path.exists(os.path.join(ctx["root"], "harness", "src", "bin", "emlv-C20.rs")):
+        cmd += ["--bin", "emlv-C20"]      # one binary per property: only ours (and easy-ml) is needed
     rc, out, err = ctx["sh"](cmd, cwd=os.path.join(ctx["root"], "harness"), check=False, env=env, timeout=1800)
     if rc != 0:
         raise ctx["MachineryError"]("cargo build (to locate the rlib) failed:\n" + err[-3000:])
@@ -320,6 +324,11 @@ def run(ctx):
             if expect is None:
                 raise ctx["MachineryError"](f"probe {fn} has no `// expect:` header")
             hand.append({"id": fn[:-3], "path": path, "rule": rule, "expect": expect})
+    n_hand_files = len(hand)
+    # ---- generated lifetime-relation probes (entry point x receiver kind) -----------------------
+    life = c20_lifetimes.generate(os.path.join(work, "life"))
+    hand += life
+    uncovered, n_entry_points = c20_lifetimes.coverage(ctx["repo"])
     # ---- generated auto-trait probes ----------------------------------------------------------
     auto = auto_trait_probes(table, os.path.join(work, "auto"))
     # model verdicts in one batch
@@ -360,7 +369,8 @@ def run(ctx):
             rp = replay_copy(h["id"], h["path"])
             wrong_code_only = (not compiled) and h["expect"][0] == "fail"
             violations.append({
-                "case": f"probe {h['id']}: {h['rule']}", "kind": "probe", "probe": f"probes/{h['id']}.rs",
+                "case": f"probe {h['id']}: {h['rule']}", "kind": "probe",
+                "probe": (f"probes/{h['id']}.rs" if "family" not in h else "generated: " + h["family"]),
                 "expected": " ".join([h["expect"][0]] + h["expect"][1]), "observed": ("compiles" if compiled else "rejected " + ",".join(codes)),
                 "first_error": first, "why": why, "no_failing_input": wrong_code_only,
                 "explanation": ("The program is rejected, but not for the catalogued reason: the catalogue no longer "
@@ -368,6 +378,12 @@ def run(ctx):
                                 "The probe program is a client program whose acceptance by the compiler contradicts "
                                 "the property (or a documented valid usage that no longer compiles)."),
                 "replay_argv": ["python3", "props/c20_extra.py", "replay", rp]})
+    for fn_file, fn_name in uncovered:
+        violations.append({
+            "case": f"lifetime probe table does not cover the entry point `{fn_name}` of {fn_file}", "kind": "catalogue",
+            "no_failing_input": True, "broken": "props/c20_lifetimes.py ENTRIES (coverage of the record / container API)",
+            "explanation": "A public function whose result type carries a tape lifetime has no row in the lifetime "
+                           "probe table: its documented lifetime relation is not checked; no violating program found."})
     disagreements_model = 0
     for r in auto:
         compiled, codes, first = r["obs"]
@@ -397,20 +413,34 @@ def run(ctx):
                                "translator or the model is out of step with the code; no violating program found.",
                 "replay_argv": ["python3", "props/c20_extra.py", "replay", rp]})
 
-    # keep the report readable: at most 8 violations, concrete ones first
-    violations.sort(key=lambda v: (v["no_failing_input"], v["case"]))
+    # keep the report readable: at most 8 new violations, concrete ones first
+    known_res = []
+    try:
+        for line in open(os.path.join(ctx["root"], "known_findings.txt")):
+            m = re.match(r"known:\s+property=C20\s+match=(\S+)", line.strip())
+            if m:
+                known_res.append(re.compile(m.group(1)))
+    except OSError:
+        pass
+    # recorded findings last, so that they never crowd out a new violation
+    violations.sort(key=lambda v: (any(r.search(v["case"]) for r in known_res), v["no_failing_input"], v["case"]))
     total_violations = len(violations)
     if os.environ.get("C20_ALL_VIOLATIONS"):
         for v in violations:
             log("  " + v["case"] + " :: " + str(v.get("why", v.get("broken"))) + " :: " + str(v.get("first_error", ""))[:150])
-    violations = violations[:8]
+    violations = violations[:8 + sum(1 for v in violations if any(r.search(v['case']) for r in known_res))]
 
     fam_counts = {}
     for r in auto:
         k = f"auto.{r['family']}.{'holds' if r['want'] else 'fails'}"
         fam_counts[k] = fam_counts.get(k, 0) + 1
-    fam_counts["hand.must-compile"] = len(hand) - n_fail_expected
-    fam_counts["hand.must-not-compile"] = n_fail_expected
+    for h in life:
+        fam_counts[h["family"]] = fam_counts.get(h["family"], 0) + 1
+    n_life_fail = sum(1 for h in life if h["expect"][0] == "fail")
+    fam_counts["hand.must-compile"] = n_hand_files - (n_fail_expected - n_life_fail)
+    fam_counts["hand.must-not-compile"] = n_fail_expected - n_life_fail
+    cov["lifetime_entry_points"] = {"in_source": n_entry_points, "uncovered": [f"{a}:{b}" for a, b in uncovered],
+                                    "table_rows": len(c20_lifetimes.ENTRIES), "round_trips": len(c20_lifetimes.ROUND_TRIPS)}
     codes_seen = {}
     for item in hand + auto:
         for c in set(item["obs"][1]):
@@ -438,7 +468,8 @@ def run(ctx):
     for r in auto[:3]:
         samples.append({"probe": r["type"] + ": " + r["trait"], "expected_by_property": r["want"], "model": r["model"],
                         "rustc": "compiles" if r["obs"][0] else "rejected " + ",".join(r["obs"][1])})
-    log(f"[C20] probes: {len(hand)} hand-written + {len(auto)} generated; violations={total_violations} "
+    log(f"[C20] probes: {n_hand_files} hand-written + {len(life)} generated lifetime + {len(auto)} generated auto-trait; "
+        f"violations={total_violations} "
         f"(model-vs-rustc disagreements {disagreements_model})")
     return {"violations": violations, "coverage": cov, "samples": samples}
 
